@@ -275,8 +275,7 @@ func (x *bconn) do(p *plan, h *hooks, res *result) {
 	case x.r.splitNow():
 		// hot upgrade in progress: keep a partly sent frame in MOSN's read buffer most of the time, so
 		// that the hand-over of this connection finds buffered bytes
-		n := len(frame)
-		parts = [][]byte{frame[:n/4], frame[n/4 : n/2], frame[n/2 : 3*n/4], frame[3*n/4:]}
+		parts = splitFrame(frame, id, x.r.cs.Pow2Cuts)
 	default:
 		parts = [][]byte{frame}
 	}
@@ -303,6 +302,16 @@ func (x *bconn) do(p *plan, h *hooks, res *result) {
 		}
 	}
 	x.await(map[uint32]*pend{id: {p, res}})
+}
+
+// splitFrame cuts a frame into 4 pieces: quarters, or - every fourth request, boundary-biased - after 64, 128
+// and 256 bytes (the amounts of buffered bytes a hand-over then finds are sizes of buffer-pool slots).
+func splitFrame(frame []byte, id uint32, always bool) [][]byte {
+	n := len(frame)
+	if (always || id%4 == 3) && n > 300 {
+		return [][]byte{frame[:64], frame[64:128], frame[128:256], frame[256:]}
+	}
+	return [][]byte{frame[:n/4], frame[n/4 : n/2], frame[n/2 : 3*n/4], frame[3*n/4:]}
 }
 
 type pend struct {
@@ -384,8 +393,7 @@ func (x *bconn) doPair(pa, pb *plan, ra, rb *result) {
 		return
 	}
 	defer x.r.doneOne()
-	n := len(fb)
-	parts := [][]byte{fb[:n/4], fb[n/4 : n/2], fb[n/2 : 3*n/4], fb[3*n/4:]}
+	parts := splitFrame(fb, idb, x.r.cs.Pow2Cuts)
 	rb.Pieces = len(parts)
 	pending := map[uint32]*pend{ida: {pa, ra}}
 	for i, part := range parts {
